@@ -832,8 +832,13 @@ func newHandlerCallMap(
 ) *handlerCall {
 	//
 
-	isFinal := strings.HasSuffix(methodName, SuffixState) ||
-		strings.HasSuffix(methodName, SuffixEnd)
+	// the phase decides which map is consulted, not the name: the negotiation
+	// handlers of a state called e.g. FooEnd (AFooEnd, FooEndFooEnd) end with a
+	// final suffix too
+	isFinal := false
+	if tx := m.t.Load(); tx != nil {
+		isFinal = tx.latestHandlerIsFinal
+	}
 
 	if isFinal {
 		if _, ok := h.finals[methodName]; !ok {
